@@ -73,6 +73,7 @@ def run(F, R):
     registration_rule(F, R, 'O11')
     # O12: the device reads the available index at the address it was told: transports' queue_set register traces (C10.M2 / C11.W3)
     transport_registration_rule(F, R, 'O12')
+    transport_registration_rule(F, R, 'O12', op='queue_used')      # a live queue is reported as in use (so it is never set up over a running ring)
     # O13: an entry the available index covers stays written until the device has completed it: chains are torn down only
     # through the token-checked completion function (C03.E15)
     from .C03 import release_rule
